@@ -13,7 +13,14 @@ def main(argv):
     for p in sorted(glob.glob(os.path.join(HERE, 'mutants', '*.patch'))):
         items.append((os.path.basename(p).split('_')[0], p))
     for p in sorted(glob.glob(os.path.join(HERE, 'seeded', '*', 'patch.diff'))):
-        items.append((os.path.basename(os.path.dirname(p)).split('-')[0].split('_')[0], p))
+        pid = os.path.basename(os.path.dirname(p)).split('-')[0].split('_')[0]
+        try:
+            import json
+            # a seeded change may be registered under a neighbouring property's check (meta.json: property)
+            pid = json.load(open(os.path.join(os.path.dirname(p), 'meta.json'))).get('property', pid)
+        except Exception:
+            pass
+        items.append((pid, p))
     bad = 0
     for pid, patch in items:
         if want and pid not in want:
